@@ -1,3 +1,4 @@
+from ..dates import timedelta
 from .base import AnalyticalPropagator
 
 
@@ -9,6 +10,10 @@ class NonePropagator(AnalyticalPropagator):
     """
 
     def propagate(self, date):
+
+        if type(date) is timedelta:
+            date = self.orbit.date + date
+
         orb = self.orbit.copy()
         orb.date = date
         return orb
